@@ -11,10 +11,10 @@
     [pre_lt] the node).  [1 <= T < 2^31] is Go's own range (int32 level mask,
     height <= 30); [Height T = h] names the height; nothing else is bounded. *)
 From Coq Require Import ZArith List Bool Lia Sorting.Sorted.
-From Low Require Import Lib.MachInt Lib.Bits Lib.Lex Lib.Bytes Spec.Bmtree Spec.IndexSpec Spec.ContractSpec
-  Model.BmtreePath Model.BmtreeIndex
+From Low Require Import Lib.MachInt Lib.Bits Lib.BitSeq Lib.Lex Lib.Bytes Spec.Bmtree Spec.IndexSpec Spec.ContractSpec
+  Spec.FromStr32Spec Model.BmtreePath Model.BmtreeIndex Model.FromStr32
   Proofs.BmtreeRankSpec Proofs.ShiftMultiProofs Proofs.BmtreeIndexProofs Proofs.BmtreeContractProofs
-  Proofs.BmtreeDomainProofs Proofs.BmtreeSubtreeProofs.
+  Proofs.BmtreeDomainProofs Proofs.BmtreeSubtreeProofs Proofs.BmtreeKeyIndexProofs.
 Import ListNotations.
 Open Scope Z_scope.
 
@@ -225,6 +225,35 @@ Theorem C03_child_checker : forall T q (b dbg : bool), 1 <= T < 2 ^ 31 ->
 Proof. exact child_checker. Qed.
 Print Assumptions C03_child_checker.
 
+(** * widening (with C11): from a key to its bitmap index.  PathOf(s, from, h) followed by
+    PathToIndexLoose / PathToIndex ranks the node spelled by the key's bits from .. from+h, cut at the
+    end of the key ([key_node]); [dbg] selects the build *)
+Theorem C03_key_index : forall T h s from (dbg : bool), 1 <= T < 2 ^ 31 -> Height T = Z.of_nat h ->
+  bytes_ok s -> 0 <= from -> from + Z.of_nat h + 7 < 2 ^ 31 -> 8 * zlen s < 2 ^ 31 ->
+  exists p, PathOf s from (Z.of_nat h) = Some p /\
+    (if dbg then PathToIndexLoose_debug else PathToIndexLoose) T p =
+    Some (pre_rank T h (key_node s from h), Z.b2z (stored T (key_node s from h))).
+Proof. intros T h s from dbg HT HH Hs Hf Hov Hlen. exact (key_index T h s from HT HH Hs Hf Hov Hlen dbg). Qed.
+Print Assumptions C03_key_index.
+
+Theorem C03_key_index_strict : forall T h s from (dbg : bool), 1 <= T < 2 ^ 31 -> Height T = Z.of_nat h ->
+  bytes_ok s -> 0 <= from -> from + Z.of_nat h + 7 < 2 ^ 31 -> 8 * zlen s < 2 ^ 31 ->
+  stored T (key_node s from h) = true ->
+  exists p, PathOf s from (Z.of_nat h) = Some p /\
+    (if dbg then PathToIndex_debug else PathToIndex) T p = Some (pre_rank T h (key_node s from h)).
+Proof. intros T h s from dbg HT HH Hs Hf Hov Hlen. exact (key_index_strict T h s from HT HH Hs Hf Hov Hlen dbg). Qed.
+Print Assumptions C03_key_index_strict.
+
+(** the key operations of the correspondence run in their own terms (Run/C03.v [op_key_loose]) *)
+Theorem C03_key_checker : forall T s from (dbg : bool), 1 <= T < 2 ^ 31 -> bytes_ok s -> 0 <= from ->
+  from + Height T + 7 < 2 ^ 31 -> 8 * zlen s < 2 ^ 31 ->
+  exists p, PathOf s from (Height T) = Some p /\
+    (if dbg then PathToIndexLoose_debug else PathToIndexLoose) T p =
+    Some (spec_loose T (Z.to_nat (Height T))
+            (firstn (Z.to_nat (clamp (8 * zlen s - from) 0 (Height T))) (skipn (Z.to_nat from) (msb_bits s)))).
+Proof. exact key_checker. Qed.
+Print Assumptions C03_key_checker.
+
 (** * widening: the contracts of the debug build on RAW arguments (any int32 level mask, any uint64 word) *)
 
 (** the naive decoder of Spec/ContractSpec.v recognises exactly the path words *)
@@ -342,4 +371,13 @@ Example C03_child_nonvacuous :
   PathToIndexLoose 90 (enc 6 ([true; false] ++ [true])) = Some (46 + 0 + 90 / 2 ^ 3, 1) /\
   pre_rank 90 6 [true; false] + pre_rank (90 / 2 ^ 2) 4 [true; true] = 63 /\
   PathToIndexLoose 90 (enc 6 ([true; false] ++ [true; true])) = Some (63, 1).
+Proof. repeat apply conj; vm_compute; reflexivity. Qed.
+
+(** the key "\xa5\x80" from bit 3, tree 0b1011010 of height 6: node = bits 3..8 = 001011 *)
+Example C03_key_nonvacuous :
+  key_node [0xa5; 0x80] 3 6 = [false; false; true; false; true; true] /\
+  PathOf [0xa5; 0x80] 3 6 = Some (enc 6 [false; false; true; false; true; true]) /\
+  PathToIndexLoose 90 (enc 6 [false; false; true; false; true; true]) = Some (pre_rank 90 6 [false; false; true; false; true; true], 1) /\
+  key_node [0xa5; 0x80] 12 6 = [false; false; false; false] /\
+  PathOf [0xa5; 0x80] 12 6 = Some (enc 6 [false; false; false; false]).
 Proof. repeat apply conj; vm_compute; reflexivity. Qed.
